@@ -141,7 +141,7 @@ Definition diag_of (p : list Q) : @mat QR := mdiag (fun i => q2c (nth i p 0)).
 Definition ex_tab (tab : list (Q * Q)) (x : Q) : Q :=
   match find (fun p => Qeq_bool (fst p) x) tab with Some p => snd p | None => - (1) end.
 
-Inductive request := Thermal | Weak | Strong | Impulsive.
+Inductive request := Thermal | Weak | Strong | Impulsive | OpenSys.
 
 Record dmcase := mkCase {
   c_req : request;
@@ -179,6 +179,12 @@ Definition get_dm (vs vz vw vd : variant) (c : dmcase) : option (@mat QR) :=
           | Some p => Some (tab2 n n (weak_data vw n (qmat (c_U c)) (qmat (c_U1 c)) (diag_of p)))
           | None => None end
       end
+  | OpenSys =>
+      (* OpenSystem.get_thermal_ReducedDensityMatrix: populations in the eigenbasis of H (also at T = 0), object created
+         inside eigenbasis_of(H) and transformed to the caller's basis when that context is left *)
+      match opensystem_population ex vs (c_kB c) (c_temp c) (c_hexc c) with
+      | Some p => Some (tab2 n n (weak_data vw n (qmat (c_U c)) (qmat (c_U1 c)) (diag_of p)))
+      | None => None end
   | Strong =>
       let E := strong_energies vd n (qmat (c_S c)) (qmat (c_S1 c)) (qmat (c_Hcur c)) in
       let hs := map (fun i => c2q (E i)) (seq 0 n) in
